@@ -206,14 +206,16 @@ Proof. vm_compute. reflexivity. Qed.
 Theorem xyz_swap_loop_terminates_sorted :
   forall (X : Type) (key : X -> nat) (fuel : nat) (l : list X),
     inv_count key l <= fuel ->
-    exists r tr, swap_loop key fuel l = Some (r, tr) /                 sortedb (map key r) = true /\ Permutation l r /\ length tr = inv_count key l.
+    exists r tr, swap_loop key fuel l = Some (r, tr) /\
+                 sortedb (map key r) = true /\ Permutation l r /\ length tr = inv_count key l.
 Proof. exact @swap_loop_terminates. Qed.
 Print Assumptions xyz_swap_loop_terminates_sorted.
 
 (* ... and length^2 is such a bound (the bound the correspondence uses) *)
 Theorem xyz_swap_loop_terminates_within_square :
   forall (X : Type) (key : X -> nat) (l : list X),
-    exists r tr, swap_loop key (length l * length l) l = Some (r, tr) /                 sortedb (map key r) = true /\ Permutation l r /\ length tr = inv_count key l.
+    exists r tr, swap_loop key (length l * length l) l = Some (r, tr) /\
+                 sortedb (map key r) = true /\ Permutation l r /\ length tr = inv_count key l.
 Proof. exact @swap_loop_terminates_sq. Qed.
 Print Assumptions xyz_swap_loop_terminates_within_square.
 
@@ -236,7 +238,7 @@ Print Assumptions xyz_swap_loop_preserves_world.
    (first inversions 0 then 1), final columns in x, y, z order showing data axes 1, 2, 0;
    a loop that is given too little fuel does not return *)
 Example xyz_swap_loop_example :
-  swap_loop (fun ca : list Z * nat => match fst ca with [0;0;_] => 2 | [0;_;_] => 1 | _ => 0 end%Z) 9
+  swap_loop (fun ca : list Z * nat => match fst ca with [a;b;_] => if Z.eqb a 0 then (if Z.eqb b 0 then 2 else 1) else 0 | _ => 0 end) 9
             (init_state Z [[0;0;2];[-1;0;0];[0;3;0]]%Z)
   = Some ([([-1;0;0]%Z, 1); ([0;3;0]%Z, 2); ([0;0;2]%Z, 0)], [0; 1])
   /\ swap_loop (fun n : nat => n) 1 [2; 0; 1] = None
